@@ -410,9 +410,16 @@ func (a *jwtAuthenticator) getKey(
 			var jwk jose.JSONWebKey
 
 			if err = json.Unmarshal(entry, &jwk); err == nil {
-				logger.Debug().Msg("Reusing JWK from cache")
+				// the cache key covers neither validate_jwk nor the trust store, so the entry may stem from a
+				// mechanism with other validation settings: validate it like a freshly fetched key and
+				// ignore it if it does not pass
+				if err = a.validateJWK(&jwk); err == nil {
+					logger.Debug().Msg("Reusing JWK from cache")
 
-				return &jwk, nil
+					return &jwk, nil
+				}
+
+				logger.Info().Err(err).Str("_key_id", keyID).Msg("Cached JWK is invalid. Ignoring it.")
 			}
 		}
 	}
